@@ -27,6 +27,19 @@ CLAIMED = {
          'Trusted: Lean kernel, Mathlib, harness generators/tolerances; IEEE rounding/libm/Numba outside the theorems (the falsifier found a genuine precision defect near pi that no real-number theorem can see: known finding).',
          'Lean 4 proofs over a generic executable model (Float instance run against the code, real instance proved) + differential correspondence',
          'DESIGN.md section 5 C01'),
+ 'C03': ('Machine-checked theorems (Lean 4, reals) about an executable model of class tm: every writer of the six-vector is coherent by construction; every writer of the matrix is coherent because '
+         'exp3(log3 R) = R on all of SO(3) (proved for identity / generic / half-turn branches); SO(3) is closed under the operations; hence by induction over every operation history all objects stay '
+         'coherent and in SE(3), under the explicit side condition that no matrix handed to TMtoTAA has angle strictly inside (0,1e-6). Model tied to the real class by exhaustive + random differential histories; '
+         'coherence itself is evaluated on the real objects after every step.',
+         'Trusted: Lean kernel, Mathlib, harness op interpreter/generators; scipy from_quat and lstsq modelled by contract; rounding outside the theorems (near-pi precision loss of MatrixLog3 = known finding).',
+         'Lean 4 invariant proof by induction over operation histories on a hand-written model + differential correspondence + on-object falsifier',
+         'DESIGN.md section 5 C03'),
+ 'C04': ('Machine-checked theorems (Lean 4, reals) on the same model: @ is matrix product, inv is the two-sided group inverse, associativity, localToGlobal = ref*rel and globalToLocal = inv(ref)*x '
+         '(through exp3∘log3 = id), mutual inverses, and each constructor form (6 numbers, rpy = Rx*Ry*Rz, quaternion, matrix, pair, tm, array of tm) yields the stated matrix. '
+         'Tied by differential runs on redundant descriptions of one pose and on pose triples; laws also evaluated on the real objects against NumPy references.',
+         'Trusted: as C03; scipy as_quat/from_matrix by contract (checked on the implementation); frame theorems carry the angle side condition (band measured).',
+         'Lean 4 proofs on a hand-written model + differential correspondence over constructor forms and pose triples',
+         'DESIGN.md section 5 C04'),
 }
 NA_REASON = 'check not built yet in this round (work in progress; DESIGN.md section 8 gives the build order)'
 
